@@ -5,7 +5,7 @@
    (b) the segment (Net/Commute.v, Pd/Layout.v): datagrams naming different stations commute, and a
        group's cycle passes through the devices of other groups unchanged. *)
 From EC Require Import Base.Prelude Base.Bytes Pdu.Frame Pdu.Slots Pdu.SlotsProofs Pdu.Client Pdu.ClientProofs
-  Pdu.Isolation Pd.Layout Pd.LayoutProofs Net.Commute Net.Interleave Pdu.IdxAlloc Pdu.IdxAllocProofs Gen.IdxProgram.
+  Pdu.Isolation Pd.Layout Pd.LayoutProofs Net.Commute Net.Interleave Net.InterleaveLrw Pdu.IdxAlloc Pdu.IdxAllocProofs Gen.IdxProgram.
 Local Open Scope N_scope.
 
 (* (a1) an operation on a handle changes that handle's slot only *)
@@ -158,3 +158,21 @@ Theorem c20_interleave_example :
   ra = [([1; 2], 1); ([1; 2], 1)] /\ rb = [([9], 1); ([8], 1); ([9; 8], 1)].
 Proof. exact interleave_example. Qed.
 Print Assumptions c20_interleave_example.
+
+(* logical (process-data) datagrams are operations local to a footprint too - the stations one of
+   whose sixteen FMMUs answers an address of the datagram's range (with C08: the devices of the
+   group) - for ANY FMMU contents and any ring order without repetition.  So register accesses,
+   mailbox exchanges and process-data cycles of two tasks with disjoint footprints can be
+   interleaved in ANY order: each task receives what it would receive alone, each task's devices
+   end as after its run alone, every other station is untouched. *)
+Theorem c20_mixed_tasks_interleave : forall (conf : N -> fregs) (order : list N), NoDup order ->
+  forall (PA PB : N -> Prop) l s, (forall a, PA a -> PB a -> False) ->
+  fits mop (mfoot conf order) PA PB l ->
+  let '(s', ra, rb) := run_tagged mop mres (mex conf order) s l in
+  ra = snd (run mop mres (mex conf order) s (ops_of mop true l)) /\
+  rb = snd (run mop mres (mex conf order) s (ops_of mop false l)) /\
+  agree_on PA s' (fst (run mop mres (mex conf order) s (ops_of mop true l))) /\
+  agree_on PB s' (fst (run mop mres (mex conf order) s (ops_of mop false l))) /\
+  (forall a, ~ PA a -> ~ PB a -> present s' a = present s a /\ forall x, memory s' a x = memory s a x).
+Proof. exact mixed_tasks_interleave. Qed.
+Print Assumptions c20_mixed_tasks_interleave.
